@@ -62,6 +62,9 @@ JOBS["timer"] = dict(module="MC_Timer", constants=dict(Slice="timer", NQ=2, Gene
 JOBS["timer3"] = dict(module="MC_Timer", constants=dict(Slice="timer", NQ=3, GenerationFix="TRUE"), invariants=TIMER_INV,
                       timeout={"quick": 600, "thorough": 1800}, workers=8, tiers=("thorough",))
 
+JOBS["trace-solver"] = dict(kind="trace", module="TraceSolver", runs={"quick": 60, "thorough": 1500},
+                            timeout={"quick": 900, "thorough": 3600})
+
 UNIFY_ASSUME = [
     "pairs whose unification needs an occurs check are generated but excluded (counted under excluded_cases)",
     "the universe is bounded: terms of depth <= 2 over 2 atoms, 1 integer, 2 floats, 3 variables, $_, f/1 g/2 h/0, lists of <= 3 elements with and without tail",
@@ -69,20 +72,20 @@ UNIFY_ASSUME = [
 ]
 
 PROPS = {
-    "C01": dict(jobs=["solver-andor", "solver-lists", "solver-alias"], level="model_checking",
+    "C01": dict(jobs=["solver-andor", "solver-lists", "solver-alias", "trace-solver"], level="model_checking",
                 rule="every program of the slice grammars (base facts + 1-3 clauses whose bodies combine calls, =, ==, conjunction, disjunction, nested and/or; the recursive list programs; the aliasing programs) x queries, each asked until 'no more'; "
                      "TLC checks that the solution-node machine of Solver.tla refines the declarative search of SLD.tla (Refines) and the real engine must observe the same answers in the same order; solve_all must report them as `$Var = value`",
                 assumptions=["programs whose reference search exceeds the call-depth budget or needs an occurs check are outside the claim (counted under excluded_cases)"]),
-    "C02": dict(jobs=["solver-cut"], level="model_checking",
+    "C02": dict(jobs=["solver-cut", "trace-solver"], level="model_checking",
                 rule="`!` at every position of 2-3 literal conjunctions, disjunctions and their nestings, before/after succeeding, failing, multi-answer and printing goals, in a called predicate, with later clauses that succeed / fail / print, and under a caller; TLC checks CutCommits, NoRetryLeftOfCut, CutIsLocal and Refines on the machine",
                 assumptions=["cut inside not(...) / time(...) is excluded, as the property states"]),
-    "C03": dict(jobs=["solver-not"], level="model_checking",
+    "C03": dict(jobs=["solver-not", "trace-solver"], level="model_checking",
                 rule="not(...) around calls, conjunctions, disjunctions, unifications, comparisons, printing goals and another not, alone / after / before generators / in a disjunction, x queries with unbound and ground arguments",
                 assumptions=[]),
-    "C04": dict(jobs=["solver-print", "solver-cut", "solver-not"], level="model_checking",
+    "C04": dict(jobs=["solver-print", "solver-cut", "solver-not", "trace-solver"], level="model_checking",
                 rule="print / print_list / nl placed left and right of multi-answer, failing and negated goals; real stdout between successive answers is compared with the reference search's text",
                 assumptions=["only atoms and small integers are printed (given literally or bound); format strings with k markers have k arguments or none"]),
-    "C05": dict(jobs=["solver-not", "solver-cut", "solver-andor", "solver-print", "solver-alias", "solver-lists"], level="model_checking",
+    "C05": dict(jobs=["solver-not", "solver-cut", "solver-andor", "solver-print", "solver-alias", "solver-lists", "trace-solver"], level="model_checking",
                 rule="every program/query of the solver slices, asked 2 more times after the first 'no more' (answers and output)",
                 assumptions=[]),
     "C11": dict(jobs=["solver-andor", "solver-alias", "solver-lists", "solver-print", "solver-not", "solver-cut"], level="model_checking",
